@@ -139,6 +139,42 @@ theorem lookup_refines (reserved : List Bytes) (h : R C pws s t) (id : Bytes) :
       AnsAgree (.getUser id) (getUser s id).2 (specStep reserved t (.getUser id)).2) :=
   ⟨exists_refines reserved h id, getUser_refines reserved h id⟩
 
+/-! #### only "guest" is password-less -/
+
+/-- the source tests the STORED id for equality with STR_GUEST (C-string comparison), in LoginQuery and in
+InitCurrentUser — not for a prefix, not through a helper. -/
+theorem guest_test_source :
+    Gen.Acct.loginGuestTest = "types.Cstrcmp(user.UserID[:], []byte(ptttype.STR_GUEST)) == 0" ∧
+    Gen.Acct.initGuestTest = "types.Cstrcmp(user.UserID[:], []byte(ptttype.STR_GUEST)) == 0" := by decide
+
+/-- ids that merely start or end with "guest" are ordinary ids: well-formed, not reserved (only the id that equals
+"guest" in some letter case is), so they can be registered. -/
+theorem guest_like_ids_registrable :
+    ∀ name ∈ (["guest01", "guestbook", "GuestX", "guests", "myguest", "Aguest", "GUEST9"].map fun (x : String) =>
+      x.toList.map Char.toNat), WellFormed name ∧ ¬ Reserved [] name ∧ name ≠ STR_GUEST := by decide
+
+/-- in ANY represented state, for EVERY account whose id is not exactly "guest" and EVERY password (of the universe)
+that does not have the effective key of the current one: the login is refused (ErrInvalidUserID) and the state is
+untouched.  With `login_refines` (which lets the stored id "guest" in without a password) this is the clause "login
+succeeds exactly with the account's current password (guest needs none)". -/
+theorem login_needs_password (reserved : List Bytes) (h : R C pws s t) (id pw : Bytes) (rest : Nat) (hp : pw ∈ pws)
+    (hw : WellFormed (cstr id)) (a : Account) (ha : t.acc (foldId id) = some a) (hg : a.id ≠ STR_GUEST)
+    (hpw : ¬ pwOk a pw) :
+    (specStep reserved t (.login id pw rest)).2 = ⟨.badPassword, [[]]⟩ ∧
+      login s id pw rest = (s, ⟨.invalidUserID, [[]]⟩) :=
+  C03.login_needs_password reserved h id pw rest hp hw a ha hg hpw
+
+/-- the witness history (ideal hash, empty table): register "guest01" with "p"; a wrong password, the empty password
+are refused, the right one accepted; after a change to "q" the OLD password is refused and the new one accepted; a
+letter-case variant of the id is the same account. -/
+theorem guest01_history :
+    (outputs (C := ideal) [] (emptyState ideal)
+      [.register [103, 117, 101, 115, 116, 48, 49] [112] [] 0 0, .login [103, 117, 101, 115, 116, 48, 49] [120] 1,
+       .login [103, 117, 101, 115, 116, 48, 49] [] 2, .login [103, 117, 101, 115, 116, 48, 49] [112] 3,
+       .changePasswd [103, 117, 101, 115, 116, 48, 49] [112] [113] 4, .login [71, 85, 69, 83, 84, 48, 49] [112] 5,
+       .login [103, 117, 101, 115, 116, 48, 49] [113] 6]).map (·.err) =
+      [.none, .invalidUserID, .invalidUserID, .none, .none, .invalidUserID, .none] := by decide +kernel
+
 /-! #### histories -/
 
 /-- after ANY finite sequence of register / login / check / change-password / change-e-mail / exists / get
